@@ -21,7 +21,7 @@ func init() {
 		Assumptions: []string{"domain as stated: i inside the bitmap, i <= end <= 64*len, end >= 1 for PrevOne"},
 		Flavours:    releaseThenGo126,
 		Required: []string{"next/in-first-word", "next/after-skipped-zero-words", "next/next-word", "next/none", "next/found-but-beyond-end", "range/empty", "range/i-aligned", "range/end-aligned",
-			"prev/in-last-word", "prev/after-skipped-zero-words", "prev/prev-word", "prev/none", "prev/found-but-before-i"},
+			"prev/in-last-word", "prev/after-skipped-zero-words", "prev/prev-word", "prev/none", "prev/found-but-before-i", "bitmap>=500-words"},
 		Families: func(c *mon.Config) []mon.Family {
 			return []mon.Family{
 				{Name: "all-ranges-structured", N: 3 * 4 * 4 * 3, Run: c13Structured},
@@ -201,8 +201,12 @@ func c13AllZoo(w *mon.W, idx int) {
 func c13Long(w *mon.W, idx int) {
 	r := w.Rng
 	nw := 4 + r.Intn(61)
+	if idx%40 == 39 {
+		nw = 500 + r.Intn(2500) // long scans over thousands of words
+		w.Bucket("bitmap>=500-words")
+	}
 	bm := gen.ZooBitmap(r, nw)
-	if r.Intn(3) == 0 {
+	if r.Intn(3) == 0 || nw >= 500 {
 		// long runs of empty words
 		for k := range bm {
 			if r.Intn(4) != 0 {
